@@ -3,7 +3,7 @@
 set -e
 export CARGO_NET_OFFLINE=true
 ROOT="$(cd "$(dirname "$0")/.." && pwd)"
-(cd "$ROOT/harness" && cargo build --release --offline)
+(cd "$ROOT/harness" && cargo build --release --offline --target-dir "$ROOT/target")
 (cd "$ROOT/sanit/sendsync" && cargo build --offline --target-dir "$ROOT/target-stress")
 (cd "$ROOT/sanit/stress" && cargo build --release --offline --target-dir "$ROOT/target-stress")
 # ThreadSanitizer build of the C18 stress monitor (nightly, build-std; ~80 s cold)
